@@ -18,11 +18,12 @@
      padDim     FALSE: extended_mps_factors / extended_mpo_factors hard-code physical dimension 2
                        (as found)            TRUE: they follow the dimension of the state
      small      FALSE: MPS.make refuses <= 1 site, so <= 1 well prepared atom raises (as found)
-                TRUE:  0 / 1 remaining atoms are supported
+                TRUE:  with fewer than two well prepared atoms every atom stays in the chain and the
+                       badly prepared ones are switched off (no drive, no interaction), as emu-sv does
 
    Mechanism state  s  (index |-> label maps, all 0-based functions):
      qperm, atomOrder, drive (columns of self.omega/delta/phi), hasFilter, wp (well_prepared_qubits_filter),
-     qc (self.qubit_count), init (letters of the MPS sites), imat (tagged matrix), ham (per site:
+     off (atoms switched off instead of removed), qc (self.qubit_count), init (letters of the MPS sites), imat (tagged matrix), ham (per site:
      <<drive label, interaction row label, interaction column label, initial letter label>>),
      ext (state handed to the observables), occ / bits / corr (stored results), outcome.          *)
 EXTENDS Perm, Sequences
@@ -43,7 +44,7 @@ TaggedMatrix(t)     == [i \in DOMAIN t |-> [j \in DOMAIN t |-> <<t[i], t[j]>>]]
 PairMatrix(e)       == [i \in DOMAIN e |-> [j \in DOMAIN e |-> <<e[i], e[j]>>]]
 Bad(sc)             == [k \in Idx(sc.n) |-> sc.spe /\ sc.rho[k] \in sc.dark]     \* pulser_data.bad_atoms
 
-Blank == [ qperm |-> <<>>, atomOrder |-> <<>>, drive |-> <<>>, hasFilter |-> FALSE, wp |-> <<>>, qc |-> 0,
+Blank == [ qperm |-> <<>>, atomOrder |-> <<>>, drive |-> <<>>, hasFilter |-> FALSE, wp |-> <<>>, off |-> <<>>, qc |-> 0,
            init |-> <<>>, imat |-> <<>>, ham |-> <<>>, ext |-> <<>>, occ |-> <<>>, bits |-> <<>>, corr |-> <<>>,
            outcome |-> "running" ]
 
@@ -64,9 +65,12 @@ MpsInitDarkQubits(sc, s) ==
   IF ~sc.spe THEN [s EXCEPT !.hasFilter = FALSE]
   ELSE LET bad == IF V.siteOrder THEN PermuteTuple(Bad(sc), s.qperm) ELSE Bad(sc)
            wp  == [k \in Idx(sc.n) |-> ~bad[k]]
-       IN [s EXCEPT !.hasFilter = TRUE, !.wp = wp,
-                    !.qc = CountTrue(wp),                    \* self.qubit_count = sum(filter)
-                    !.drive = Select(s.drive, wp)]           \* self.omega[:, filter] (delta, phi alike)
+       IN IF V.small /\ CountTrue(wp) < 2
+          THEN [s EXCEPT !.hasFilter = FALSE, !.off = bad,      \* too few atoms for an MPS: switch off, keep
+                         !.drive = [k \in Idx(sc.n) |-> IF bad[k] THEN OFF ELSE s.drive[k]]]
+          ELSE [s EXCEPT !.hasFilter = TRUE, !.wp = wp,
+                         !.qc = CountTrue(wp),               \* self.qubit_count = sum(filter)
+                         !.drive = Select(s.drive, wp)]      \* self.omega[:, filter] (delta, phi alike)
 
 \* MPSBackendImpl.init_initial_state
 MpsInitInitialState(sc, s) ==
@@ -85,7 +89,10 @@ MpsGetInteractionMatrix(sc, s) ==
   LET m0 == TaggedMatrix(sc.rho)                                                  \* pulser_data.interaction_matrix(t)
       m1 == IF s.qperm # EyePermutation(sc.n) THEN PermuteMatrix(m0, s.qperm) ELSE m0
       m2 == IF s.hasFilter THEN SelectMatrix(m1, s.wp) ELSE m1                    \* m[filter, :][:, filter]
-  IN [s EXCEPT !.imat = m2]
+      m3 == IF s.off # <<>>
+            THEN [i \in Idx(sc.n) |-> [j \in Idx(sc.n) |-> IF s.off[i] \/ s.off[j] THEN <<OFF, OFF>> ELSE m2[i][j]]]
+            ELSE m2
+  IN [s EXCEPT !.imat = m3]
 
 \* make_H(current_interaction_matrix) + update_H(omega[ts, :], delta[ts, :], phi[ts, :]) :
 \* site k of the MPO gets interaction row / column k and drive column k; the state's site k is letter k
